@@ -786,7 +786,8 @@ class PubKeyV4(PubKey):
     def created_datetime(self, val):
         if val.tzinfo is None:
             warnings.warn("Passing TZ-naive datetime object to PubKeyV4 packet")
-        self._created = val
+        # the packet holds whole seconds; the object must not say anything else than what it will write
+        self._created = val.replace(microsecond=0)
 
     @created.register(int)
     def created_int(self, val):
